@@ -3,14 +3,40 @@ import os
 
 CHECKS = {}
 
+from extract import contracts as _ct
+
+
+def _gen_c04(repo, work):
+    sol, ral = _ct.sol_parse_vm(repo), _ct.ral_parse_vaa(repo)
+    path = os.path.join(work, "gen_c04.go")
+    with open(path, "w") as f:
+        f.write("package vaa\n\n// generated from ethereum/contracts/Messages.sol and alephium/contracts/governance.ral by extract/contracts.py\n")
+        f.write(_ct.go_layout("verifSolLayout", sol))
+        f.write(_ct.go_layout("verifRalLayout", ral))
+    return {"./pkg/vaa": [path]}
+
+
+def _gen_c07(repo, work):
+    sol, ral = _ct.sol_quorum_expr(repo), _ct.ral_quorum_expr(repo)
+    path = os.path.join(work, "gen_c07.go")
+    with open(path, "w") as f:
+        f.write("package processor\n\n// generated from Messages.sol quorum() and governance.ral quorumSize by extract/contracts.py\n")
+        f.write("func verifSolQuorum(n uint64) uint64 { return %s }\n" % sol)
+        f.write("func verifRalQuorum(n uint64) uint64 { return %s }\n" % ral)
+    return {"./pkg/processor": [path]}
+
+
 CHECKS["C07"] = {
+    "generate": _gen_c07,
     "runs": [
         {"pkg": "./pkg/processor", "entry": "VerifC07_Quorum", "reach": ["end"]},
+        {"mod": "explorer-backend", "pkg": "./processor", "entry": "VerifC07_ExplorerQuorum", "reach": ["end"]},
     ],
     "exhaustive": True,
     "bounds": {"n": "0..255 (symbolic; the property's whole domain)"},
-    "outside": "nothing: n ranges over the wire format's one-byte guardian count",
-    "assumptions": [],
+    "outside": "nothing: n ranges over the wire format's one-byte guardian count (the contract expressions are evaluated in 64-bit arithmetic; for n <= 255 no intermediate exceeds 2^16, so checked 256-bit arithmetic gives the same value)",
+    "assumptions": ["contract formulas are extracted as arithmetic expression text from Messages.sol quorum() and governance.ral (let quorumSize = ...) on every run; the extractor fails closed",
+                    "explorer-backend links github.com/alephium/wormhole-fork/node from the module cache (go.mod), that copy is what is analysed for it"],
 }
 
 def _ranges(name, lo, hi, step):
@@ -57,4 +83,21 @@ CHECKS["C06"] = {
     "outside": "k >= 4 signatures; lists with more than one repeated address; list lengths other than those listed (the code's only size-dependent operations are the two integer comparisons against len(list), exercised at 0..4, 19 and 255 with a symbolic index byte)",
     "assumptions": ["ecrecover model (DESIGN 4.1): a (digest,signature) pair produced by SignBy recovers to its key; any other pair fails or recovers to an address different from every honest key (existential unforgeability); recovery is a function of (digest, signature)",
                     "Keccak-256 uninterpreted; VerifC06_BodyBound additionally assumes collision-freeness on the pre-images hashed on the path"],
+}
+
+CHECKS["C04"] = {
+    "generate": _gen_c04,
+    "runs": [
+        {"pkg": "./pkg/vaa", "entry": "VerifC04_Layout", "reach": ["end"],
+         "shards": {"quick": ["v.plen=0,1,2;v.nsig=0..2", "v.plen=3,100;v.nsig=0..2"], "thorough": ["v.plen=0..3", "v.plen=100", "v.plen=1000,1001"]}},
+        {"pkg": "./pkg/vaa", "entry": "VerifC04_Independence", "reach": ["same-body-fields", "equal-bodies"],
+         "shards": {"quick": ["a.plen=0,1,2;b.plen=0,1,2;a.nsig=0,1;b.nsig=0,1"], "thorough": ["a.plen=0..3;b.plen=0..3", "a.plen=100;b.plen=100", "a.plen=1000;b.plen=1000"]}},
+        {"pkg": "./pkg/vaa", "entry": "VerifC04_InjectiveLengths", "reach": ["different-lengths"],
+         "shards": {"quick": ["a.plen=0..3;b.plen=0..3"], "thorough": [""]}},
+    ],
+    "bounds": {"quick": {"payload length": "0,1,2,3,100", "signatures": "0..2 (Layout), 0..1 (Independence)", "fields": "every field fully symbolic, nanoseconds 0..999999999 symbolic"},
+               "thorough": {"payload length": "0,1,2,3,100,1000,1001", "signatures": "0..4"}},
+    "outside": "payload lengths and signature counts not listed; timestamps outside the 32-bit whole-second range of the wire format; the contracts themselves are read as text (layout and hash structure extracted by pattern, fail-closed), not executed",
+    "assumptions": ["Keccak-256 uninterpreted (congruence only)", "encoding/binary.Write model (DESIGN 4.2)",
+                    "contract layouts come from extract/contracts.py run on the current contract sources"],
 }
